@@ -162,6 +162,29 @@ Section Canon.
     end.
   Definition printable_list (l : list stmt) : bool := forallb (fun s => printable (S (stmt_size s)) s) l.
 
+  (* [open_if s]: what is written for s ends in an `if` that has no `else` (so an `else` written right after it would be
+     taken by that inner if): purely syntactic — an if whose else is absent / empty, or the else-chain ends in one.
+     A block is closed by its `}` and never open. *)
+  Fixpoint open_if (s : stmt) : bool :=
+    match s with
+    | SIf _ _ e => if is_empty_opt e then true else match e with Some x => open_if x | None => false end
+    | _ => false
+    end.
+  (* [else_safe s]: at every if of s that has both branches and whose body is written WITHOUT braces (ends_in_if says
+     false), the body is not open.  ends_in_if answers the question for an else-less if by asking whether optimize_stmt
+     would leave it an if, which is right on optimiser output (idempotence) but not on arbitrary trees: this is the
+     hypothesis of parse_print that excludes the dangling else (StmtPrintProofs.PrintCounterexample). *)
+  Fixpoint else_safe (s : stmt) : bool :=
+    match s with
+    | SIf c b e =>
+        (if negb (is_empty b) && negb (is_empty_opt e) && negb (ends_in_if T (S (stmt_size b)) b)
+         then negb (open_if b) else true)
+        && else_safe b && match e with Some x => else_safe x | None => true end
+    | SBlock l => forallb else_safe l
+    | _ => true
+    end.
+  Definition else_safe_list (l : list stmt) : bool := forallb else_safe l.
+
 End Canon.
 
 (* ---- semantics of parsed trees over an abstract meaning of expression token runs ---- *)
